@@ -155,10 +155,10 @@ class World:
         else:
             raise HarnessError(f"unknown op {op}")
 
-    def cones(self, info):
+    def cones(self, info, entry=None):
         sid = self.store_id(info)
         m = self.model(sid)
-        return Cones(self.versions[info["ver"]], load_fp=lambda p: m["path_fp"].get(p, "absent"))
+        return Cones(self.versions[info["ver"]], load_fp=lambda p: m["path_fp"].get(p, "absent"), entry=entry)
 
     def do_eval(self, i, op):
         info = self.ensure_proc(op.get("proc", 0))
@@ -194,23 +194,44 @@ class World:
         self.log.append([i, "eval", fn, style, info["ver"], sid, out["res"][:2], out["log"], rec["sigs"]])
         if op.get("fail") or not full:
             # C10 / C15 evaluate these records themselves; the model is updated from what completed
-            self._update_stored(info, prog, out, bm)
+            self._update_stored(info, prog, out, bm, fn)
             if full is False and out["res"][0] == "ok" and _has_stage(stages, "eval") and _has_stage(stages, "path_commit"):
-                self._update_table(m, ref, info, prog, newtab)
+                self._update_table(m, ref, info, prog, newtab, fn)
             return
+        # ---- C09: a path read before it is produced in the same evaluation must be rejected
+        if ref.get("early_loads"):
+            self.probe("read_before_produce")
+            if out["res"][0] == "ok":
+                self.violate("C09.order", f"op {i} eval {fn}: path(s) {ref['early_loads']} are loaded before they are produced in the "
+                                          f"same evaluation; dds returned {_short(out['res'][1])} instead of rejecting the evaluation")
+            elif out["res"][1] != "DDSException":
+                self.violate("C09.order", f"op {i} eval {fn}: read-before-produce of {ref['early_loads']} raised {out['res'][1:]} "
+                                          f"instead of a DDS error")
+            self._update_stored(info, prog, out, bm, fn)
+            return
+        if ref.get("loads"):
+            self.probe("eval_with_load")
+            keptp = [kp for (kp, _) in ref["kept"]]
+            if any(p in keptp for (p, n) in ref["loads"]):
+                self.probe("load_of_path_produced_in_same_eval")
+            if any(p not in keptp for (p, n) in ref["loads"]) and ref["res"][0] == "ok":
+                self.probe("load_of_path_from_earlier_eval")
         # ---- C01
         if ref["res"][0] == "ok":
             if out["res"][0] != "ok":
-                self.violate("C01.noexc", f"op {i} eval {fn} (v{info['ver']}, {sid}): raised {out['res'][1:]} while plain "
-                                          f"execution returns {_short(ref['res'][1])}")
+                self.violate("C09.value" if ref.get("loads") else "C01.noexc",
+                             f"op {i} eval {fn} (v{info['ver']}, {sid}): raised {out['res'][1:]} while plain "
+                             f"execution returns {_short(ref['res'][1])}")
             elif out["res"] != ref["res"]:
-                self.violate("C01.value", f"op {i} eval {fn} (v{info['ver']}, {sid}): dds returned {_short(out['res'][1])} "
-                                          f"plain execution returns {_short(ref['res'][1])}")
+                self.violate("C09.value" if ref.get("loads") else "C01.value",
+                             f"op {i} eval {fn} (v{info['ver']}, {sid}): dds returned {_short(out['res'][1])} "
+                             f"plain execution returns {_short(ref['res'][1])}")
         elif ref["res"][0] == "loadmissing":
+            self.probe("load_of_never_produced_path")
             if out["res"][0] == "ok":
                 self.violate("C09.order", f"op {i} eval {fn}: a load of {ref['res'][1]} before the path was ever produced "
                                           f"returned {_short(out['res'][1])} instead of being rejected")
-            elif out["res"][1] != "DDSException" and out["res"][1] != "AssertionError":
+            elif out["res"][1] != "DDSException":
                 self.violate("C09.order", f"op {i} eval {fn}: load of a never produced path raised {out['res'][1:]} "
                                           f"instead of a DDS error")
             return
@@ -218,7 +239,7 @@ class World:
             raise HarnessError(f"reference run raised {ref['res']} for generated program")
         # ---- C02
         if bsp != "noop":
-            cones = self.cones(info)
+            cones = self.cones(info, fn)
             kf = cones.kept_functions()
             executed = [n for n in out["log"] if n in kf]
             reach = [n for n in ref["log"] if n in kf]
@@ -226,7 +247,7 @@ class World:
                 self.probe("stored_node_seen_again")
             for n in sorted(set(executed)):
                 if kf[n] in bm["stored"]:
-                    self.violate("C02.cone", f"op {i} eval {fn} (v{info['ver']}, {sid}): kept function {n} executed again "
+                    self.violate("C09.reexec" if ref.get("loads") else "C02.cone", f"op {i} eval {fn} (v{info['ver']}, {sid}): kept function {n} executed again "
                                              f"although a node with the same dependency cone was executed and stored before",
                                  fn=n)
                 if executed.count(n) > 1:
@@ -234,22 +255,22 @@ class World:
                                  fn=n)
             if not executed and any(n in kf for n in ref["log"]):
                 self.probe("all_cached")
-        self._update_stored(info, prog, out, bm)
+        self._update_stored(info, prog, out, bm, fn)
         if out["res"][0] == "ok":
-            self._update_table(m, ref, info, prog, newtab)
+            self._update_table(m, ref, info, prog, newtab, fn)
             self.last_ok_value[(sid, fn)] = out["res"]
 
-    def _update_stored(self, info, prog, out, bm):
+    def _update_stored(self, info, prog, out, bm, entry=None):
         if self.blob_space(info) == "noop":
             return
-        cones = self.cones(info)
+        cones = self.cones(info, entry)
         kf = cones.kept_functions()
         for n in out["log"]:
             if n.endswith(":end") and n[:-4] in kf:
                 bm["stored"].add(kf[n[:-4]])
 
-    def _update_table(self, m, ref, info, prog, newtab):
-        cones = self.cones(info)
+    def _update_table(self, m, ref, info, prog, newtab, entry=None):
+        cones = self.cones(info, entry)
         prods = cones.producers()
         for (p, cv) in ref["kept"]:
             m["path_fp"][p] = cones.fp_node(prods[p]) if p in prods else "driver"
